@@ -1123,19 +1123,12 @@ class Duration(AnyAtomicType):
         if not isinstance(other, self.__class__):
             raise TypeError("wrong type %r for operand %r" % (type(other), other))
 
-        m1, s1 = self.months, int(self.seconds)
-        m2, s2 = other.months, int(other.seconds)
-        ms1, ms2 = int((self.seconds - s1) * 1000000), int((other.seconds - s2) * 1000000)
-        return all([
-            op(datetime.timedelta(months2days(1696, 9, m1), s1, ms1),
-               datetime.timedelta(months2days(1696, 9, m2), s2, ms2)),
-            op(datetime.timedelta(months2days(1697, 2, m1), s1, ms1),
-               datetime.timedelta(months2days(1697, 2, m2), s2, ms2)),
-            op(datetime.timedelta(months2days(1903, 3, m1), s1, ms1),
-               datetime.timedelta(months2days(1903, 3, m2), s2, ms2)),
-            op(datetime.timedelta(months2days(1903, 7, m1), s1, ms1),
-               datetime.timedelta(months2days(1903, 7, m2), s2, ms2)),
-        ])
+        m1, s1 = self.months, self.seconds
+        m2, s2 = other.months, other.seconds
+        return all(
+            op(months2days(year, month, m1) * 86400 + s1, months2days(year, month, m2) * 86400 + s2)
+            for year, month in ((1696, 9), (1697, 2), (1903, 3), (1903, 7))
+        )
 
     def __hash__(self) -> int:
         return hash((self.months, self.seconds))
@@ -1222,13 +1215,23 @@ class YearMonthDuration(Duration):
     def __mul__(self, other: object) -> 'YearMonthDuration':
         if not isinstance(other, (float, int, Decimal)):
             raise TypeError("cannot multiply a %r by %r" % (type(self), type(other)))
-        return YearMonthDuration(months=int(round_number(self.months * other)))
+        elif math.isinf(other):
+            raise OverflowError("cannot multiply a %r by infinity" % type(self))
+        try:
+            return YearMonthDuration(months=int(round_number(self.months * other)))
+        except ArithmeticError as err:
+            raise OverflowError(str(err)) from None
 
     def __truediv__(self, other: object) -> Union[float, 'YearMonthDuration']:
         if isinstance(other, self.__class__):
             return self.months / other.months
         elif isinstance(other, (float, int, Decimal)):
-            return YearMonthDuration(months=int(round_number(self.months / other)))
+            try:
+                return YearMonthDuration(months=int(round_number(self.months / other)))
+            except ZeroDivisionError:
+                raise
+            except ArithmeticError as err:
+                raise OverflowError(str(err)) from None
         else:
             raise TypeError("cannot divide a %r by %r" % (type(self), type(other)))
 
@@ -1285,6 +1288,8 @@ class DayTimeDuration(Duration):
         if isinstance(other, (float, int, Decimal)):
             if math.isnan(other):
                 raise ValueError("cannot multiply a %r by NaN" % type(self))
+            elif math.isinf(other):
+                raise OverflowError("cannot multiply a %r by infinity" % type(self))
 
             if isinstance(other, (int, Decimal)):
                 seconds = self.seconds * other
@@ -1297,6 +1302,8 @@ class DayTimeDuration(Duration):
 
     def __truediv__(self, other: object) -> Union[Decimal, 'DayTimeDuration']:
         if isinstance(other, self.__class__):
+            if not other.seconds:
+                raise ZeroDivisionError("division by a zero-length duration")
             return self.seconds / other.seconds
         elif isinstance(other, (float, int, Decimal)):
             if math.isnan(other):
